@@ -15,7 +15,7 @@ func init() {
 		Explanation: "Decides structural clauses of C12: (R-C12-1) every access to Store.active.{m,f,w} (loads, stores, map operations, iteration steps) and to fields of cachedSecret holds Store.active.Mutex (must-held lock sets with inferred entry states for helpers; pre-publication code in NewStore/initializeActive/isActiveSetValid/loadCache up to the first point the *Store escapes is tabled), mutex operations are balanced -- the standard sufficient condition for absence of data races on that state; " +
 			"(R-C12-2) while the mutex is really held no call can reach a service request, net/http, singleflight, a sleep or a blocking channel operation, so a handle only ever waits for critical sections that never wait for the service; " +
 			"(R-C12-3) an installed api.SecretValue is never mutated (no field store outside its literal, no element store/copy/append into its Value); (R-C12-4) every removal from active.m after publication is edge-dominated by the not-present edge of a lookup of the same name in the handle map, and a handle is created only for a name present in active.m, and only non-nil entries with a fetched value are installed; " +
-			"(R-C12-5) the handle body and Secret.Get/GetString contain no panic, unchecked assertion or indexing.",
+			"(R-C12-5) the handle body and Secret.Get/GetString contain no panic, unchecked assertion or indexing. (R-C12-9) from every explicit Lock/RLock in the client library each path to a return passes the matching Unlock (called or deferred): no function exits holding the store's mutex.",
 		NotDecided:  "The order of values a reader observes (a statement about histories); race-detector executions.",
 		Trusted:     commonTrusted,
 		Assumptions: []string{"one Store guards its own maps (type-level lock identity; checked: no function handles two *Store values)", "Cache.Write is local persistence, not a service request (allowed under the lock)", "calls through logf/timeNow function values do not block on the service"},
@@ -39,6 +39,7 @@ func runC12(c *eng.Ctx, tier string) {
 	// R-C12-8: "exactly the bytes of some version the service served": nothing
 	// outside the store holds an alias of them (C20's copy rule)
 	includeOnly(c, "R-C12-8", func(sc *eng.Ctx) { runC20(sc, "quick") }, "R-C20-1")
+	c12NoLockLeak(c)
 	l := moduleLocks(c)
 	accs := storeAccesses(p)
 	// R-C12-1
@@ -328,4 +329,53 @@ func storeBytesImmutable(c *eng.Ctx, rule string) {
 		c.Ok(rule, nil, 0, "stores to api.SecretValue fields in client/setec", "none outside literals")
 	}
 
+}
+
+// c12NoLockLeak: R-C12-9.  "A handle never blocks (forever)": no function of
+// the client library can return while still holding a mutex it locked itself.
+// From every explicit Lock()/RLock() call each path to a return passes the
+// matching Unlock (called, or deferred after the Lock).  A poller that exits
+// with the store's mutex held would leave every handle blocked for good,
+// Close included in the silence.
+func c12NoLockLeak(c *eng.Ctx) {
+	p := c.P
+	n := 0
+	for _, f := range p.PkgFuncs(setecPkg) {
+		eng.Instrs(f, func(in ssa.Instruction) {
+			call, ok := in.(*ssa.Call)
+			if !ok {
+				return
+			}
+			op, key, isL := eng.LockOp(&call.Call)
+			if !isL || key == "" || (op != "Lock" && op != "RLock") {
+				return
+			}
+			n++
+			want := "Unlock"
+			if op == "RLock" {
+				want = "RUnlock"
+			}
+			released := func(x ssa.Instruction) bool {
+				ci, isC := x.(ssa.CallInstruction)
+				if !isC {
+					return false
+				}
+				if _, isGo := x.(*ssa.Go); isGo {
+					return false
+				}
+				o2, k2, ok2 := eng.LockOp(ci.Common())
+				return ok2 && k2 == key && o2 == want
+			}
+			hit, path := eng.Search(f, call, nil, released, func(x ssa.Instruction) bool { return eng.IsReturn(x) })
+			c.Check(hit == nil, "R-C12-9", f, call.Pos(), eng.CallStr(&call.Call)+" in "+eng.FName(f), "released on every way out (a deferred or explicit "+want+" lies on each path from here to a return)", func() string {
+				if hit == nil {
+					return ""
+				}
+				return "return at " + p.Pos(hit.Pos()) + " reached with the mutex still held: " + p.PathStr(path)
+			}())
+		})
+	}
+	if n < 5 {
+		c.Undecided("R-C12-9", nil, 0, "explicit Lock calls in the client library", "fewer than 5 found")
+	}
 }
